@@ -62,8 +62,10 @@ def ev_int(e, env):
         return env.get(e.id) if isinstance(env.get(e.id), Poly) else None
     if isinstance(e, ast.Call):
         cn = chain(e.func) or ''
-        if cn == 'len' and len(e.args) == 1 and isinstance(e.args[0], ast.Name) and isinstance(env.get(e.args[0].id), View) and env[e.args[0].id].off.is_zero():
-            return LEN
+        if cn == 'len' and len(e.args) == 1:
+            v_ = ev_view(e.args[0], env)
+            if v_ is not None and not v_.scalar and v_.stride == 1 and v_.rows is None:
+                return (LEN if v_.stop is None else v_.stop) - v_.off          # number of columns from off up to the stop / the end of the line
         if cn.split('.')[-1] in ('int', 'int32', 'int64', 'floor') and len(e.args) == 1:
             inner = ev_int(e.args[0], env)
             return None if inner is None else alg.mk_fn('int', alg.P(inner))
@@ -163,6 +165,12 @@ def run(ctx):
         if not isinstance(st, ast.Assign) or len(st.targets) != 1:
             continue
         t, v = st.targets[0], st.value
+        if isinstance(t, ast.Tuple) and all(isinstance(x, ast.Name) for x in t.elts):
+            vv = ev_view(v, env)
+            if vv is not None and not vv.scalar and vv.stride == 1 and vv.stop is not None and alg.is_zero(vv.stop - vv.off - len(t.elts))[0]:
+                for k_, x in enumerate(t.elts):
+                    env[x.id] = View(vv.off + k_, 0, None, scalar=True)      # a, b, c = cols[:3]
+            continue
         if isinstance(t, ast.Name):
             if isinstance(v, ast.Call) and (chain(v.func) or '') == line + '.split' and not v.args:
                 env[t.id] = View(Poly())
@@ -185,8 +193,11 @@ def run(ctx):
         raise AnalysisError('from_ascii: column split / object construction not found')
     nw = [k for k, v in env.items() if isinstance(v, Poly)]
     n_ok = any(alg.is_zero(env[k] - N)[0] for k in nw)
-    ctx.expect(n_ok, 'ALG-19', 'n = (len - 3) / 3', where(fa), 'number of filters == n when the line has 3(n+1) columns',
-               'filter count evaluates to %s for a line of 3(n+1) columns' % {k: alg.show(env[k]) for k in nw}, 'n-arith')
+    if not nw:
+        ctx.undecided('ALG-19', 'n = (len - 3) / 3', where(fa), 'no integer local computed from the number of columns was recognised')
+    else:
+        ctx.expect(n_ok, 'ALG-19', 'n = (len - 3) / 3', where(fa), 'number of filters == n when the line has 3(n+1) columns',
+                   'filter count evaluates to %s for a line of 3(n+1) columns' % {k: alg.show(env[k]) for k in nw}, 'n-arith')
     want = {'name': (Poly(), 0), 'x': (Poly.const(1), 0), 'y': (Poly.const(2), 0), 'valid': (Poly.const(3), 1), 'flux': (3 + N, 2), 'error': (4 + N, 2)}
     stops = {'valid': 3 + N}
     for attr, (off, stride) in want.items():
